@@ -83,6 +83,21 @@ def extra_lazy_probe(tier, seed):
     return dict(violations=viol, coverage=dict(lazy_probe_routes=len(real), lazy_probe_rows=real[:3]))
 
 
+def extra_dd_race(tier, seed):
+    """C14: two actors asking each other at the same instant on a multi-thread runtime, many rounds:
+    every round one of the two asks must panic with 'Deadlock detected' (supporting stress test for
+    the atomicity of check-and-insert, which the model has as one step)."""
+    bins = vlib.build_harness(("dd",), bins=("director", "dd_race_probe"))
+    rounds = 3000 if tier == "quick" else 30000
+    out = vlib.sh([bins["dd_race_probe"], str(rounds)], timeout=1800, check=True).stdout.strip()
+    want = "rounds=%d detected=%d hung=0 other=0 edges_end=0" % (rounds, rounds)
+    viol = []
+    if out.strip() != want:
+        viol.append(dict(what="a concurrent two-actor ask cycle was not detected (or residue was left)",
+                         real=out, expected=want, replay_cmd="dd_race_probe %d" % rounds))
+    return dict(violations=viol, coverage=dict(dd_race=out))
+
+
 def extra_id_stress(tier, seed):
     """C11: ids handed out by concurrent spawns from many OS threads (fresh process): the model's
     id_of_index says the n-th spawn gets id n, so n spawns give exactly 1..n, all distinct; every
@@ -369,7 +384,7 @@ PROPS = {
     ),
     "C10": dict(
         props_file="Props/C10.v",
-        families=[("time", NONE, 250), ("core", NONE, 50)],
+        families=[("time", NONE, 250), ("core", NONE, 50), ("block", NONE, 20)],
         projection="C10", monitors=["C10"],
         level_note="Async variants: proved on the model's virtual clock and checked on tokio's paused clock. That tokio's timer wakes the task at the deadline, and the wall-clock behaviour of the blocking variants' helper thread, are runtime facts outside the model (partial).",
     ),
@@ -382,6 +397,7 @@ PROPS = {
         props_file="Props/C14.v",
         families=[("multi", ("dd",), 300)],
         projection="C14", monitors=["C14"],
+        extra=[extra_dd_race],
         level_note="Proved for every reachable state: the walk is exact for every graph and cycle length, every unfinished ask begun by a hook is tracked and has its edge (keys unique), hence any chain of such asks leading back to the asker makes the ask panic (C14_complete_run; premise: fewer than 2^64-1 spawns, so ids are unique). 'Sequential' is built into the model: a hook awaits at most one operation at a time; concurrent asks from one hook (join!) are outside it. The real graph is also read through the --cfg rsactor_verif hook at every quiescent point and compared.",
     ),
     "C15": dict(
